@@ -3,34 +3,53 @@ import PorepyVerif.Common.Wire
 import PorepyVerif.C46.Model
 open Lean PV PorepyVerif.C46
 
-/-- state: the `k`-row store of the model (`StoreK`: one `Store` per value row, shared coordinates);
-    every op is answered by the model functions `addK` / `getK` that the theorems
-    `sparseK_refines_dictK`, `addK_ret` speak about -/
-abbrev St := StoreK
+/-- state: the adaptive table of the model (`PtTable`): the `k`-row store (`StoreK`: one `Store`
+    per value row, shared coordinates) and the side array `_pt` (unused by plain SparseNdArray
+    cases).  Every op is answered by the model functions `addK` / `getK` / `assignValues` that the
+    theorems `sparseK_refines_dictK`, `addK_ret`, `assignValues_spec` speak about. -/
+abbrev St := PtTable
 
-def step (st : St) (j : Json) : R (St × Json) := do
+def step (t : St) (j : Json) : R (St × Json) := do
+  let st := t.1
   let op ← fStr j "op"
   match op with
   | "init" =>
     let k ← fNat j "value_dim"
-    pure (List.replicate k [], Json.str "ok")
+    pure ((List.replicate k [], []), Json.str "ok")
   | "add" =>
     let coords ← fIntss j "coords"
     -- value columns: `cols[j]` = the `k` values given for `coords[j]` (`values[:, j]`)
     let cols ← fRatss j "cols"
     let additive ← fBool j "additive"
+    -- the decidable input condition `OpK.WF` of the k-row theorems, evaluated on every case
     if cols.length != coords.length then throw "length mismatch" else
     if cols.any (fun col => col.length != st.length) then throw "value_dim mismatch" else
     let r := addK st (coords.zip cols) additive
-    pure (r.1, obj [("ret", ofNats r.2)])
+    pure ((r.1, t.2), obj [("ret", ofNats r.2)])
+  | "assign" =>
+    -- AdaptiveInterpolationTable.assign_values(val, coord, indices) with coord = grid points
+    let coords ← fIntss j "coords"
+    let cols ← fRatss j "cols"
+    let base ← fRats j "base"
+    let h ← fRats j "h"
+    if cols.length != coords.length then throw "length mismatch" else
+    if cols.any (fun col => col.length != st.length) then throw "value_dim mismatch" else
+    if coords.any (fun c => c.length != base.length) || h.length != base.length then throw "dim mismatch" else
+    let B := coords.zip cols
+    let t' := assignValues t B (B.map (fun p => gridPoint base h p.1))
+    pure (t', obj [("pt", ofList ofRats t'.2)])
   | "get" =>
     let coords ← fIntss j "coords"
     match getK st coords with
-    | none => pure (st, err "ValueError")
-    | some rows => pure (st, obj [("vals", ofList ofRats rows)])
+    | none => pure (t, err "ValueError")
+    | some rows => pure (t, obj [("vals", ofList ofRats rows)])
   | "dump" =>
-    pure (st, obj [("coords", ofList ofInts ((st.headD []).map (·.1))),
+    pure (t, obj [("coords", ofList ofInts ((st.headD []).map (·.1))),
                    ("values", ofList ofRats (st.map (fun s => s.map (·.2))))])
+  | "dump_table" =>
+    pure (t, obj [("coords", ofList ofInts ((st.headD []).map (·.1))),
+                   ("values", ofList ofRats (st.map (fun s => s.map (·.2)))),
+                   ("pt", ofList ofRats t.2)])
   | _ => throw s!"unknown op {op}"
 
-def main : IO Unit := runDriver ([] : St) step
+def main : IO Unit := runDriver (([], []) : St) step
